@@ -901,3 +901,28 @@ GROUPS["p14"] += [
       "etc./~              # most dictionary only list it with the final dot",
       "etc./~              # most dictionary only list it with the final dot\nrev./~", None),
 ]
+
+# C03/C05/C12: run_on_chunk hands back chunk-relative spans; the stand-alone rule path pushes them back by the first
+# token's start (the shape of seeded/C03-e) / by the chunk span's start (correct)
+_PL = "harper-core/src/linting/pattern_linter.rs"
+_LGF = "harper-core/src/linting/lint_group.rs"
+def _rel(bad):
+    sfx = "" if bad else "-ok"
+    base = "first.span.start" if bad else "chunk_span.start"
+    intro = "            let Some(first) = chunk.first() else {\n                continue;\n            };\n" if bad else "            let Some(chunk_span) = chunk.span() else {\n                continue;\n            };\n"
+    return [
+        E("c03-relative-spans-callee%s" % sfx, ["C03", "C05", "C12"], _PL,
+          "    let mut lints = Vec::new();\n    let mut tok_cursor = 0;\n",
+          "    let Some(chunk_span) = chunk.span() else {\n        return Vec::new();\n    };\n\n    let mut lints = Vec::new();\n    let mut tok_cursor = 0;\n", None),
+        E("c03-relative-spans-callee-pull%s" % sfx, ["C03"], _PL,
+          "            tok_cursor += 1;\n        }\n    }\n\n    lints\n}",
+          "            tok_cursor += 1;\n        }\n    }\n\n    for lint in &mut lints {\n        lint.span.pull_by(chunk_span.start);\n    }\n\n    lints\n}", None),
+        E("c03-relative-spans-standalone%s" % sfx, ["C03"], _PL,
+          "            lints.extend(run_on_chunk(self, chunk, source));",
+          intro + "            for mut lint in run_on_chunk(self, chunk, source) {\n                lint.span.push_by(%s);\n                lints.push(lint);\n            }" % base,
+          ":rebase" if bad else None),
+        E("c03-relative-spans-group%s" % sfx, ["C03"], _LGF,
+          "                // Make the spans relative to the chunk start\n                for lint in &mut pattern_lints {\n                    lint.span.pull_by(chunk_span.start);\n                }\n\n", "", None),
+    ]
+GROUPS["g27"] = _rel(True)
+GROUPS["p15"] = _rel(False)
